@@ -378,6 +378,40 @@ mut('ok-c10-sig-normalise', ['C10'], OB,
     [("        msig = msg.signature if msg.signature is not None else ''\n        esig = m.sigIn if m.sigIn is not None else ''\n\n        if esig != msig:",
       "        msig = msg.signature or ''\n        esig = m.sigIn or ''\n\n        if not esig == msig:")], kind='benign')
 
+# ---- C18 ------------------------------------------------------------------
+twin('c18-prefix-validators', ['C18'], '3859009', ['C18.D1'], 'pre-fix twin: trailing dot / stray colon accepted')
+mut('c18-member-regex-dot', ['C18'], M,
+    [("mbr_re = re.compile('[^A-Za-z0-9_]')", "mbr_re = re.compile('[^A-Za-z0-9_.]')")], ['C18.D1'])
+mut('c18-if-regex-hyphen', ['C18'], M,
+    [("if_re = re.compile('[^A-Za-z0-9_.]')", "if_re = re.compile('[^A-Za-z0-9_.-]')")], ['C18.D1'])
+mut('c18-length-ge', ['C18'], M,
+    [("    try:\n        if len(n) < 1:\n            raise Exception('Name must be at least one byte in length')\n        if len(n) > 255:",
+      "    try:\n        if len(n) < 1:\n            raise Exception('Name must be at least one byte in length')\n        if len(n) >= 255:")], ['C18.D1'])
+mut('c18-objpath-trailing-slash-ok', ['C18'], M,
+    [("    if len(p) > 1 and p[-1] == '/':\n        raise MarshallingError('Object paths may not end with \"/\"')\n", "")], ['C18.D1'])
+mut('c18-objpath-root-rejected', ['C18'], M,
+    [("    if len(p) > 1 and p[-1] == '/':", "    if p[-1] == '/':")], ['C18.D1'])
+mut('c18-dot-digit-dropped', ['C18'], M,
+    [("        if dot_digit_re.search(n):\n            raise Exception(\n                'No components of an interface name may begin with a digit')\n", "")], ['C18.D1'])
+mut('c18-bus-unique-digit-check', ['C18'], M,
+    [("        if not n[0] == ':' and dot_digit_re.search(n):", "        if dot_digit_re.search(n):")], ['C18.D1'],
+    note='unique names like :1.5 would be rejected')
+mut('ok-c18-member-empty-check-dropped', ['C18'], M,
+    [("        if len(n) < 1:\n            raise Exception('Name must be at least one byte in length')\n", "")], kind='benign',
+    note='n[0] on the empty name raises IndexError inside try -> still rejected; equivalent')
+mut('c18-error-name-unvalidated', ['C18', 'C03'], 'txdbus/message.py',
+    [("        marshal.validateInterfaceName(error_name)\n", "")], ['C18.D2', 'C03.D7'])
+mut('c18-index-outside-try', ['C18'], M,
+    [("    try:\n        if len(n) < 1:\n            raise Exception('Name must be at least one byte in length')\n        if len(n) > 255:\n            raise Exception('Name exceeds maximum length of 255')\n        if n[0].isdigit():",
+      "    if n[0].isdigit():\n        raise MarshallingError('Names may not begin with a digit')\n    try:\n        if len(n) < 1:\n            raise Exception('Name must be at least one byte in length')\n        if len(n) > 255:\n            raise Exception('Name exceeds maximum length of 255')\n        if n[0].isdigit():")], ['C18.D1'],
+    note='empty member name raises IndexError instead of MarshallingError')
+mut('ok-c18-member-fullmatch', ['C18'], M,
+    [("        if n[0].isdigit():\n            raise Exception('Names may not begin with a digit')\n        if mbr_re.search(n):\n            raise Exception(\n                'Names contains a character outside the set [A-Za-z0-9_]')\n",
+      "        if not re.fullmatch('[A-Za-z_][A-Za-z0-9_]*', n):\n            raise Exception('Invalid member name')\n")], kind='benign')
+mut('ok-c18-objpath-reorder', ['C18'], M,
+    [("    if not p.startswith('/'):\n        raise MarshallingError('Object paths must begin with a \"/\"')\n    if len(p) > 1 and p[-1] == '/':\n        raise MarshallingError('Object paths may not end with \"/\"')\n    if '//' in p:\n        raise MarshallingError('\"//\" is not allowed in object paths\"')\n",
+      "    if '//' in p:\n        raise MarshallingError('\"//\" is not allowed in object paths\"')\n    if p != '/' and p.endswith('/'):\n        raise MarshallingError('Object paths may not end with \"/\"')\n    if p[:1] != '/':\n        raise MarshallingError('Object paths must begin with a \"/\"')\n")], kind='benign')
+
 # benign variants --------------------------------------------------------------
 mut('ok-int16-condexpr', ['C01', 'C02'], M,
     [("return 2, [struct.pack(lendian and '<h' or '>h', var)]",
